@@ -68,7 +68,7 @@ func (r *Runner) Tear(garbage []byte) error {
 		sf.Close()
 	}
 	db, obs := OpenObserved(s.Cfg, root, dir, s.Universe)
-	s.R.Emit(Ev{"e": "image", "lossy": false, "lock": true})
+	s.R.Emit(Ev{"e": "image", "lossy": false, "lock": true, "failed": false})
 	s.R.Emit(obs.Event("reopened"))
 	if obs.Err != "" {
 		return fmt.Errorf("tear: %s", obs.Err)
